@@ -233,6 +233,12 @@ impl<const N: usize> Rig<N> {
         let a = QAddr { desc: qi.desc, drv: qi.drv, dev: qi.dev, size: N };
         CURQ.with(|c| *c.borrow_mut() = a);
         hal::take_log();
+        // C04 / C06 (kind 612): the addresses the device is given for the queue lie inside live DMA regions obtained from the
+        // platform (device addresses as dma_alloc returned them; virtual and device addresses never coincide here)
+        let r1 = hal::region_of(a.desc, 1).unwrap_or((0, 0, 9));
+        let r2 = hal::region_of(a.dev, 1).unwrap_or((0, 0, 9));
+        ctx.tr.line(612, &[0, N as u128, a.desc as u128, a.drv as u128, a.dev as u128, r1.0 as u128, r1.1 as u128, r2.0 as u128, r2.1 as u128, r1.2 as u128, r2.2 as u128], &[1]);
+        if r1.2 == 9 || r2.2 == 9 { ctx.tr.note("queue_registered_outside_dma_memory"); return None; }
         ctx.tr.line(100, &[N as u128, indirect as u128, event_idx as u128], &[]);
         if start != 0 {
             q.verif_set_indices(start);
